@@ -92,11 +92,12 @@ func (c *lawCtx) expect(law string, ok bool, expected string, got float64) {
 type anchor struct{ x, want float64 }
 
 var anchors = map[string][]anchor{
-	"exp":  {{1, mathspec.E}, {-1, 0.36787944117144233}, {0.5, 1.6487212707001282}, {2, 7.38905609893065}, {10, 22026.465794806718}},
-	"log":  {{mathspec.E, 1}, {2, 0.6931471805599453}, {10, 2.302585092994046}, {0.5, -0.6931471805599453}, {4, 1.3862943611198906}, {maxF, 709.782712893384}},
-	"sin":  {{mathspec.PiHalf, 1}, {mathspec.Pi, 1.2246467991473532e-16}, {1, 0.8414709848078965}, {0.5, 0.479425538604203}, {mathspec.PiFourth, 0.7071067811865475}, {10, -0.5440211108893698}},
-	"cos":  {{mathspec.Pi, -1}, {mathspec.PiHalf, 6.123233995736766e-17}, {1, 0.5403023058681398}, {0.5, 0.8775825618903728}, {2, -0.4161468365471424}, {10, -0.8390715290764524}},
-	"tan":  {{mathspec.PiFourth, 0.9999999999999999}, {1, 1.5574077246549023}, {0.5, 0.5463024898437905}, {2, -2.185039863261519}},
+	"exp": {{1, mathspec.E}, {-1, 0.36787944117144233}, {0.5, 1.6487212707001282}, {2, 7.38905609893065}, {10, 22026.465794806718}},
+	"log": {{mathspec.E, 1}, {2, 0.6931471805599453}, {10, 2.302585092994046}, {0.5, -0.6931471805599453}, {4, 1.3862943611198906}, {maxF, 709.782712893384}},
+	"sin": {{mathspec.PiHalf, 1}, {mathspec.Pi, 1.2246467991473532e-16}, {1, 0.8414709848078965}, {0.5, 0.479425538604203}, {mathspec.PiFourth, 0.7071067811865475}, {10, -0.5440211108893698},
+		{1e22, -0.8522008497671888}, {p2_53, -0.848925964814655}, {maxF, 0.004961954789184062}},
+	"cos":  {{mathspec.Pi, -1}, {mathspec.PiHalf, 6.123233995736766e-17}, {1, 0.5403023058681398}, {0.5, 0.8775825618903728}, {2, -0.4161468365471424}, {10, -0.8390715290764524}, {1e22, 0.5232147853951389}},
+	"tan":  {{mathspec.PiFourth, 0.9999999999999999}, {1, 1.5574077246549023}, {0.5, 0.5463024898437905}, {2, -2.185039863261519}, {1e22, -1.628778225606899}},
 	"asin": {{1, mathspec.PiHalf}, {-1, -mathspec.PiHalf}, {0.5, 0.5235987755982989}, {0.25, 0.25268025514207865}},
 	"acos": {{-1, mathspec.Pi}, {0.5, 1.0471975511965979}, {0.25, 1.318116071652818}, {-0.5, 2.0943951023931957}},
 	"atan": {{1, mathspec.PiFourth}, {0.5, 0.4636476090008061}, {2, 1.1071487177940904}, {10, 1.4711276743037347}, {p2_53, mathspec.PiHalf}, {maxF, mathspec.PiHalf}},
@@ -105,7 +106,7 @@ var anchors = map[string][]anchor{
 
 const (
 	anchorUlps = 2
-	anchorAbs  = 0x1p-56
+	anchorAbs  = 0x1p-54 // sin, cos: a quarter ulp of the amplitude 1 (argument-reduction residue)
 )
 
 // monotone functions and the closed interval of S on which the law is asserted.
@@ -222,7 +223,7 @@ func unaryLaws(c *lawCtx, fn string, x, fx float64) {
 	ax := math.Abs(x)
 	// anchors
 	for _, a := range anchors[fn] {
-		if a.x == x && !near(fx, a.want, anchorAbs) {
+		if a.x == x && !((fn == "sin" || fn == "cos") && near(fx, a.want, anchorAbs)) {
 			// near a zero of sin/cos the result is a cancellation residue: an absolute error far
 			// below one ulp of the argument is accepted there, 2 ulp of the result everywhere else
 			c.expectUlps("anchor", fx, a.want, anchorUlps)
